@@ -211,6 +211,7 @@ void h_print_hooks(void)
 	oldpf = o.pf; oldff = cfg.pff;
 	CHECK("C19", cfg_opt_set_print_func(&o, cfgv_pf) == oldpf && o.pf == cfgv_pf, "setting a print callback installs it for this option and returns the previous one");
 	CHECK("C19", cfg_set_print_filter_func(&cfg, cfgv_filter_inherited) == oldff && cfg.pff == cfgv_filter_inherited, "setting a print filter installs it for this context and returns the previous one");
+	CHECK("C19", cfg_set_print_filter_func(&cfg, NULL) == cfgv_filter_inherited && cfg.pff == NULL && cfg_opt_set_print_func(&o, NULL) == cfgv_pf && o.pf == NULL, "setting NULL removes the filter / the callback (and returns the one that was installed)");
 	CHECK("C19", cfg_opt_set_print_func(NULL, cfgv_pf) == NULL && cfg_set_print_filter_func(NULL, cfgv_filter_own) == NULL, "NULL option / context: nothing installed");
 	CANARY("print_hooks");
 }
